@@ -162,8 +162,34 @@ class RouterModel:
                 if m is not None:
                     stubs.append(m)
         self.stub = single(stubs, 'lazy-compile stub assigned to self.%s' % self.slot, self.init.qual)
-        # table attributes: self.X arguments of the finder call in find()
-        self.tables = [(i, a.attr) for i, a in enumerate(self.find_call.args) if _self_attr(a)]
+        # table attributes: self.X arguments of the finder call in find().
+        # `self.slot(*args)` with `args = (<tuple display>)` bound once earlier
+        # in find() is looked through -- and remembered: the tables are then
+        # read BEFORE the finder slot is loaded (see r1).
+        args = list(self.find_call.args)
+        self.tables_read_early = None
+        if len(args) == 1 and isinstance(args[0], ast.Starred) and isinstance(args[0].value, ast.Name):
+            nm = args[0].value.id
+            defs = [n for n in walk_self(self.find.node) if isinstance(n, ast.Assign)
+                    and any(isinstance(t, ast.Name) and t.id == nm for t in n.targets)]
+            if len(defs) == 1 and isinstance(defs[0].value, ast.Tuple):
+                args = list(defs[0].value.elts)
+                self.tables_read_early = defs[0]
+        # locals bound once from a table attribute before the call
+        resolved = []
+        for a in args:
+            if isinstance(a, ast.Name):
+                defs = [n for n in walk_self(self.find.node) if isinstance(n, ast.Assign)
+                        and any(isinstance(t, ast.Name) and t.id == a.id for t in n.targets)]
+                if len(defs) == 1 and _self_attr(defs[0].value) and p.lookup_method(ROUTER, defs[0].value.attr) is None:
+                    resolved.append(defs[0].value)
+                    if self.tables_read_early is None:
+                        self.tables_read_early = defs[0]
+                    continue
+            resolved.append(a)
+        args = resolved
+        self.find_args = args
+        self.tables = [(i, a.attr) for i, a in enumerate(args) if _self_attr(a)]
         if len(self.tables) < 2:
             raise AnchorError('%s: the finder is not called with the router tables' % self.find.qual)
         self._w: Dict[str, Set[str]] = {}
@@ -215,6 +241,17 @@ def r1_compile_lock(run):
                 run.check(not rm.writes(m), 'find() calls no method that writes router state (other than through the finder slot)', rm.find, c,
                           witness=sorted(rm.writes(m)))
     run.ok('find() performs no store into the router', rm.find.loc(), 'find: no self stores')
+    # evaluation order inside find(): the finder slot must be loaded BEFORE the
+    # tables are read (Python evaluates `self.slot(...)`'s callee first).  The
+    # lazy compile publishes tables first and the finder last, so a reader that
+    # loads the finder first always gets tables at least as new as the finder;
+    # the opposite order can pair the freshly published finder with the stale
+    # (empty) tables read a moment earlier.
+    run.check(rm.tables_read_early is None,
+              'find() loads the finder slot before it reads the routing tables (publish order is tables, then finder)',
+              rm.find, rm.tables_read_early if rm.tables_read_early is not None else rm.find_call,
+              runtime_witness='two first-ever requests: A builds the argument tuple with the empty tables, B compiles and publishes, '
+                              'A loads the compiled finder and calls it with the stale tables -> IndexError (500)')
     # every write reachable from the stub is inside `with self.<lock>`
     n_w = 0
     for n in cfg.live_nodes():
